@@ -142,6 +142,17 @@ const MSGS: [(&str, &str); 23] = [
 ];
 
 pub fn cat_name(e: &serde_json::Error) -> &'static str {
+    // the four is_* predicates (what callers of C10 / C12 / C13 actually use) must say exactly what classify() says
+    let flags = (e.is_io(), e.is_syntax(), e.is_data(), e.is_eof());
+    let want = match e.classify() {
+        serde_json::error::Category::Io => (true, false, false, false),
+        serde_json::error::Category::Syntax => (false, true, false, false),
+        serde_json::error::Category::Data => (false, false, true, false),
+        serde_json::error::Category::Eof => (false, false, false, true),
+    };
+    if flags != want {
+        return "IS-PREDICATES-DISAGREE-WITH-CLASSIFY";
+    }
     match e.classify() {
         serde_json::error::Category::Io => "io",
         serde_json::error::Category::Syntax => "syntax",
